@@ -12,12 +12,16 @@ Oracle: mc.models.discover_spec (independent exact-statistics model, three
 valued).  Every key of every discovered field is compared; fields, their
 order and the absence of other fields are compared too.
 """
+import collections
 import contextlib
+import datetime
 import io
 import itertools
+import json
 
 from mc.engine import Check, Res
 from mc import frames_alphabet as FA
+from mc import fresh_fork as FF
 from mc.models import discover_spec as DS
 
 # ---------------------------------------------------------------- SQLite side
@@ -123,15 +127,28 @@ class C07(Check):
                 ('sqlite-single', 'one-column SQLite tables, 0..%d rows' % R),
                 ('sqlite-decl', 'the 14 other declared type names of the '
                                 'type map, 0..2 rows'),
+                ('sqlite-two', 'two-column SQLite tables, 2 rows'),
+                ('sqlite-hist', 'E3: table t / column c discovered, then a '
+                                'same-named table with another declared '
+                                'type / layout / data (new :memory: database '
+                                'with the first connection kept open; DROP + '
+                                'CREATE in the same database) discovered '
+                                'again: must equal discovery from a fresh '
+                                'state'),
+                ('pd-hist', 'E3: discover_df on a frame, then on another '
+                            'frame object with the same column names, or on '
+                            'the same frame object after its columns were '
+                            'replaced: must equal discovery from a fresh '
+                            'state'),
                 ('pd-two', 'two-column DataFrames (ordered family pairs, '
-                           '2 rows, %d-value sub-alphabets)' % (R,)),
-                ('sqlite-two', 'two-column SQLite tables, 2 rows')]
+                           '2 rows, %d-value sub-alphabets)' % (R - 1 if R == 3
+                                                               else R,))]
 
     def cases(self, tier, layer):
         thorough = tier == 'thorough'
         R = 4 if thorough else 3
         if layer == 'pd-single':
-            names = FA.NAMES if thorough else ['a', 'b c', 'é']
+            names = FA.NAMES if thorough else ['a', 'b c']
             fams = FA.BASE_FAMILIES + FA.EXTRA_FAMILIES
             for fr in FA.single_column_frames(fams, R, names, manycat=True):
                 yield {'src': 'pd', 'frame': fr}
@@ -152,7 +169,7 @@ class C07(Check):
             pairs = [('a', 'b c'), ('min', 'a')] if thorough \
                 else [('a', 'b c')]
             for fr in FA.two_column_frames(fams, 2, pairs,
-                                           4 if thorough else 3):
+                                           4 if thorough else 2):
                 yield {'src': 'pd', 'frame': fr}
         elif layer == 'sqlite-two':
             decls = list(SQL_DECL.items())
@@ -172,33 +189,164 @@ class C07(Check):
             for decl, kind in SQL_DECL_MORE.items():
                 for col in sql_columns(decl, kind, 2, 'c'):
                     yield {'src': 'sqlite', 'cols': [col]}
+        elif layer == 'sqlite-hist':
+            for case in self.grouped(self.sqlite_histories(thorough)):
+                yield case
+        elif layer == 'pd-hist':
+            for case in self.grouped(self.pd_histories(thorough)):
+                yield case
+
+    @staticmethod
+    def grouped(histories):
+        """One case = one last step + mode with ALL the histories that end
+        in it (the fresh-state observation of the last step is shared)."""
+        groups = collections.OrderedDict()
+        for h in histories:
+            last = dict((k, h[k]) for k in ('src', 'mode', 'cols', 'frame')
+                        if k in h)
+            key = json.dumps(last, sort_keys=True)
+            if key not in groups:
+                groups[key] = dict(last, hists=[])
+            groups[key]['hists'].append(h['hist'])
+        return groups.values()
+
+    @staticmethod
+    def sqlite_histories(thorough):
+        modes = ('new-db', 'drop-create')
+        decls = list(SQL_DECL.items())
+
+        def fixed(decl, kind, name='c'):
+            return {'name': name, 'decl': decl, 'kind': kind,
+                    'v': SQL_VALUES[kind][-2:]}
+        nb = 4 if thorough else 3
+        for (dA, kA) in decls:
+            A = fixed(dA, kA)
+            for (dB, kB) in decls:
+                for B in sql_columns(dB, kB, 3 if thorough else 2, 'c',
+                                     SQL_VALUES[kB][:nb]):
+                    if dA == dB and B['v'] == A['v']:
+                        continue
+                    for mode in modes:
+                        yield {'src': 'sqlite', 'mode': mode, 'hist': [[A]],
+                               'cols': [B]}
+        # layout changes: declared types swapped between two columns; a
+        # column inserted in front of an unchanged one
+        for (dA, kA) in decls:
+            for (dB, kB) in decls:
+                if dA == dB:
+                    continue
+                for mode in modes:
+                    yield {'src': 'sqlite', 'mode': mode,
+                           'hist': [[fixed(dA, kA, 'c'), fixed(dB, kB, 'd')]],
+                           'cols': [fixed(dB, kB, 'c'), fixed(dA, kA, 'd')]}
+                    yield {'src': 'sqlite', 'mode': mode,
+                           'hist': [[fixed(dA, kA, 'c')]],
+                           'cols': [fixed(dB, kB, 'b'), fixed(dA, kA, 'c')]}
+        if thorough:
+            # two earlier tables; the other declared type names
+            for (dA, kA) in decls:
+                for (dC, kC) in decls:
+                    for (dB, kB) in decls:
+                        for B in sql_columns(dB, kB, 2, 'c',
+                                             SQL_VALUES[kB][1:3]):
+                            for mode in modes:
+                                yield {'src': 'sqlite', 'mode': mode,
+                                       'hist': [[fixed(dA, kA)],
+                                                [fixed(dC, kC)]],
+                                       'cols': [B]}
+            for (dM, kM) in SQL_DECL_MORE.items():
+                for (dB, kB) in decls:
+                    for mode in modes:
+                        yield {'src': 'sqlite', 'mode': mode,
+                               'hist': [[fixed(dM, kM)]],
+                               'cols': [fixed(dB, kB)]}
+                        yield {'src': 'sqlite', 'mode': mode,
+                               'hist': [[fixed(dB, kB)]],
+                               'cols': [fixed(dM, kM)]}
+
+    @staticmethod
+    def pd_histories(thorough):
+        fams = FA.BASE_FAMILIES + (FA.EXTRA_FAMILIES if thorough else [])
+        nb = 3 if thorough else 2
+
+        def fixed(fam, name='a'):
+            return {'name': name, 'fam': fam,
+                    'v': FA.FAMILIES[fam]['values'][-2:]}
+        for fa in fams:
+            A = fixed(fa)
+            for fb in fams:
+                vb = FA.FAMILIES[fb]['values'][:nb]
+                for n in (2, 0, 1):
+                    for tup in itertools.product(vb, repeat=n):
+                        B = {'name': 'a', 'fam': fb, 'v': list(tup)}
+                        if fa == fb and B['v'] == A['v']:
+                            continue
+                        for mode in ('new-frame', 'same-object'):
+                            if mode == 'same-object' and n != 2:
+                                continue     # in-place needs equal length
+                            yield {'src': 'pd', 'mode': mode,
+                                   'hist': [{'cols': [A]}],
+                                   'frame': {'cols': [B]}}
+        # the two columns exchange their types
+        for fa in fams:
+            for fb in fams:
+                if fa == fb:
+                    continue
+                for mode in ('new-frame', 'same-object'):
+                    yield {'src': 'pd', 'mode': mode,
+                           'hist': [{'cols': [fixed(fa, 'a'),
+                                              fixed(fb, 'b c')]}],
+                           'frame': {'cols': [fixed(fb, 'a'),
+                                              fixed(fa, 'b c')]}}
+        # category-count boundary after a column on the other side of it
+        for n1, n2 in ((21, 20), (20, 21), (25, 2), (2, 25), (19, 21)):
+            for fam2 in ('manycat', 'cat'):
+                if fam2 == 'cat' and n2 > 3:
+                    continue
+                v2 = FA.manycat_values(n2, 0, 0) if fam2 == 'manycat' \
+                    else ['a', 'B1']
+                yield {'src': 'pd', 'mode': 'new-frame',
+                       'hist': [{'cols': [{'name': 'a', 'fam': 'manycat',
+                                           'v': FA.manycat_values(n1, 0,
+                                                                  1)}]}],
+                       'frame': {'cols': [{'name': 'a', 'fam': fam2,
+                                           'v': v2}]}}
+        if thorough:
+            # two earlier frames
+            for fa in FA.BASE_FAMILIES:
+                for fc in FA.BASE_FAMILIES:
+                    for fb in FA.BASE_FAMILIES:
+                        for mode in ('new-frame', 'same-object'):
+                            yield {'src': 'pd', 'mode': mode,
+                                   'hist': [{'cols': [fixed(fa)]},
+                                            {'cols': [fixed(fc)]}],
+                                   'frame': {'cols': [fixed(fb)]}}
 
     # ---------------------------------------------------------------- worker
     def setup_worker(self, tier):
+        # import only: tdda code is executed in children forked from this
+        # pristine image (mc.fresh_fork), one child per case / per history
+        FF.single_threaded_env()
+        import sqlite3                      # noqa: F401
+        import numpy                        # noqa: F401
+        import pandas                       # noqa: F401
         from tdda.constraints import discover_df, discover_db_table
         from tdda.constraints.db.drivers import database_connection
         self.discover_df = discover_df
         self.discover_db_table = discover_db_table
-        self.db = database_connection(dbtype='sqlite', db=':memory:')
-        self.conn = self.db.connection
+        self.connect = database_connection
+        FA.build_frame({'cols': [{'name': 'a', 'fam': 'i64', 'v': [1]}]})
+        FF.freeze()
 
     def teardown_worker(self):
-        try:
-            self.conn.close()
-        except Exception:
-            pass
+        pass
 
-    # ------------------------------------------------------------------ run
-    def real_pd(self, frame):
-        df = FA.build_frame(frame)
-        out = io.StringIO()
-        with contextlib.redirect_stdout(out), contextlib.redirect_stderr(out):
-            c = self.discover_df(df)
-            d = c.to_dict() if c is not None else None
-        return d
+    # ------------------------------------------- real calls (in the child)
+    def open_db(self):
+        return self.connect(dbtype='sqlite', db=':memory:')
 
-    def real_sqlite(self, cols):
-        cur = self.conn.cursor()
+    def make_table(self, db, cols):
+        cur = db.connection.cursor()
         cur.execute('DROP TABLE IF EXISTS t')
         cur.execute('CREATE TABLE t (%s)' % ', '.join(
             '"%s" %s' % (c['name'], c['decl']) for c in cols))
@@ -207,43 +355,178 @@ class C07(Check):
             cur.execute('INSERT INTO t VALUES (%s)'
                         % ', '.join('?' for c in cols),
                         [c['v'][i] for c in cols])
-        self.conn.commit()
+        db.connection.commit()
+
+    def observe(self, fn, *a):
+        """-> ('ok', fields as plain JSON-able dict or None) |
+              ('raise', exception type name, repr)"""
         out = io.StringIO()
-        with contextlib.redirect_stdout(out), contextlib.redirect_stderr(out):
-            c = self.discover_db_table('sqlite', self.db, 't')
-            d = c.to_dict() if c is not None else None
-        return d
+        try:
+            with contextlib.redirect_stdout(out), \
+                    contextlib.redirect_stderr(out):
+                c = fn(*a)
+                d = c.to_dict() if c is not None else None
+        except Exception as e:
+            return ('raise', type(e).__name__, repr(e)[:300])
+        fields = (d or {}).get('fields') or {}
+        return ('ok', [[str(k), _jd(v)] for k, v in fields.items()])
+
+    def child_single(self, case):
+        if case['src'] == 'pd':
+            return self.observe(self.discover_df,
+                                FA.build_frame(case['frame']))
+        db = self.open_db()
+        self.make_table(db, case['cols'])
+        return self.observe(self.discover_db_table, 'sqlite', db, 't')
+
+    def child_history(self, case):
+        """Earlier steps, then the last one, in ONE process.  Returns the
+        observation of the last discovery and the number of discoveries."""
+        n = 0
+        if case['src'] == 'sqlite':
+            db = self.open_db()
+            keep = [db]
+            for cols in case['hist']:
+                self.make_table(db, cols)
+                self.observe(self.discover_db_table, 'sqlite', db, 't')
+                n += 1
+                if case['mode'] == 'new-db':
+                    db = self.open_db()     # earlier connections stay open
+                    keep.append(db)
+            self.make_table(db, case['cols'])   # DROP + CREATE when same db
+            return self.observe(self.discover_db_table, 'sqlite', db,
+                                't'), n + 1
+        keep = []
+        df = None
+        for fr in case['hist']:
+            if df is None or case['mode'] == 'new-frame':
+                df = FA.build_frame(fr)
+                keep.append(df)
+            else:
+                self.mutate(df, fr)
+            self.observe(self.discover_df, df)
+            n += 1
+        if case['mode'] == 'new-frame':
+            df = FA.build_frame(case['frame'])
+        else:
+            self.mutate(df, case['frame'])
+        return self.observe(self.discover_df, df), n + 1
+
+    @staticmethod
+    def mutate(df, frame):
+        """Turn the frame object into `frame` in place (same row count and
+        column names: the columns are assigned one by one)."""
+        for c in frame['cols']:
+            df[c['name']] = FA.build_series(c)
+
+    # ------------------------------------------------------------------ run
+    def fresh(self, fn, case):
+        try:
+            return FF.run_fresh(fn, case)
+        except FF.TddaEscaped as e:
+            return ('escaped', e.tname, e.rep, e.tb)
 
     def run_case(self, case):
         R = Res()
+        if 'hists' in case:
+            return self.run_histories(R, case)
+        obs = self.fresh(self.child_single, case)
+        R.ev()
+        self.judge(R, case, obs)
+        return R
+
+    def run_histories(self, R, case):
+        """E3: same-named table / column discovered again after something
+        else.  Differential oracle: the last discovery must report what it
+        reports from a fresh state; then the exact-statistics model."""
+        last = dict((k, case[k]) for k in ('src', 'cols', 'frame')
+                    if k in case)
+        f = self.fresh(self.child_single, last)
+        R.ev()
+        R.nontrivial = True
+        nstates = 1
+        for i, hist in enumerate(case['hists']):
+            h = self.fresh(self.child_history, dict(last, mode=case['mode'],
+                                                    hist=hist))
+            if h[0] == 'escaped':
+                obs_h, n = h, len(hist) + 1
+            else:
+                obs_h, n = h
+            R.ev(n, checked=1)
+            nstates += n
+            if obs_h == f:
+                R.out('hist:%s:%s:same-as-fresh' % (case['src'],
+                                                    case['mode']))
+                continue
+            aspect = self.first_difference(obs_h, f)
+            R.out('hist:%s:%s:differs:%s' % (case['src'], case['mode'],
+                                             aspect))
+            R.viol('history-dependent:%s:%s:%s' % (case['src'], case['mode'],
+                                                   aspect),
+                   'same-result-as-from-fresh-state',
+                   {'source': case['src'], 'mode': case['mode'],
+                    'history': [self.what({'src': case['src'], 'cols': st,
+                                           'frame': st}) for st in hist],
+                    'last': self.what(case), 'after_history': obs_h,
+                    'from_fresh_state': f,
+                    'expected': 'what discovery reports for a table / frame '
+                                'does not depend on what the process '
+                                'discovered before'}, {'history': i})
+        R.states = nstates
+        self.judge(R, last, f)
+        return R
+
+    @staticmethod
+    def first_difference(a, b):
+        if a[0] != b[0] or a[0] != 'ok':
+            return 'raises' if 'raise' in (a[0], b[0]) or \
+                'escaped' in (a[0], b[0]) else 'result'
+        fa, fb = a[1] or [], b[1] or []
+        if [k for k, _ in fa] != [k for k, _ in fb]:
+            return 'fields'
+        for (k, da), (_, db) in zip(fa, fb):
+            for key in DS.KINDS:
+                if da.get(key, '<absent>') != db.get(key, '<absent>'):
+                    return key
+        return 'other'
+
+    @staticmethod
+    def what(case):
+        if case['src'] == 'pd':
+            return FA.describe(case['frame'])
+        return '; '.join('%s %s=%r' % (c['name'], c['decl'], c['v'])
+                         for c in case['cols'])
+
+    def judge(self, R, case, obs):
+        """Exact-statistics model against one observation."""
         src = case['src']
         if src == 'pd':
             cols = case['frame']['cols']
             plains = [FA.plain_column(c) for c in cols]
-            what = FA.describe(case['frame'])
         else:
             cols = case['cols']
             plains = [sql_plain(c) for c in cols]
-            what = '; '.join('%s %s=%r' % (c['name'], c['decl'], c['v'])
-                             for c in cols)
+        what = self.what(case)
         names = [c['name'] for c in cols]
         expects = [DS.discover(k, v, info) for (k, v, info) in plains]
-        R.nontrivial = any(DS.nontrivial(e) for e in expects)
+        R.nontrivial = R.nontrivial or any(DS.nontrivial(e) for e in expects)
         kinds = [p[0] for p in plains]
-        try:
-            d = self.real_pd(case['frame']) if src == 'pd' \
-                else self.real_sqlite(cols)
-        except Exception as e:
-            R.ev()
-            R.out('raise:%s' % type(e).__name__)
+        if obs[0] == 'escaped':
+            R.out('uncaught:%s' % obs[1])
+            R.viol('uncaught:%s' % obs[1], 'no-internal-error',
+                   {'source': src, 'input': what, 'exception': obs[2],
+                    'traceback': obs[3]})
+            return
+        if obs[0] == 'raise':
+            R.out('raise:%s' % obs[1])
             R.viol('discover-raises:%s:type=%s:rows=%s'
-                   % (type(e).__name__, '+'.join(str(k) for k in kinds),
+                   % (obs[1], '+'.join(str(k) for k in kinds),
                       '0' if not cols[0]['v'] else '>0'),
                    'statistics-reported',
-                   {'source': src, 'input': what, 'exception': repr(e)[:300]})
-            return R
-        R.ev()
-        fields = (d or {}).get('fields') or {}
+                   {'source': src, 'input': what, 'exception': obs[2]})
+            return
+        fields = collections.OrderedDict(
+            (k, _jl(v)) for k, v in (obs[1] or []))
         # every column here has a recognised type: each must be reported,
         # in column order, and nothing else
         if list(fields.keys()) != names:
@@ -254,24 +537,23 @@ class C07(Check):
         tags = []
         for name, exp, (kind, vals, info), col in zip(names, expects, plains,
                                                       cols):
-            obs = fields.get(name)
-            if obs is None:
+            obs1 = fields.get(name)
+            if obs1 is None:
                 continue
-            problems, gray = DS.compare(exp, dict(obs),
+            problems, gray = DS.compare(exp, dict(obs1),
                                         bool_as_int_ok=(src == 'sqlite'))
             R.unspec += gray
-            tags.append('%s{%s}' % (obs.get('type'), ','.join(
-                k[:4] + ('=' + str(obs[k]) if k in ('sign', 'max_nulls',
-                                                    'no_duplicates') else '')
-                for k in obs if k != 'type')))
+            tags.append('%s{%s}' % (obs1.get('type'), ','.join(
+                k[:4] + ('=' + str(obs1[k]) if k in ('sign', 'max_nulls',
+                                                     'no_duplicates') else '')
+                for k in obs1 if k != 'type')))
             for (clause, key, e, o) in problems:
                 R.viol(self.sig(clause, key, kind, vals, info), '%s-%s'
                        % (key, clause),
                        {'source': src, 'input': what, 'field': name,
                         'key': key, 'expected': _j(e), 'observed': _j(o),
-                        'discovered': _j(dict(obs))}, {'field': name})
+                        'discovered': _j(dict(obs1))}, {'field': name})
         R.out('%s:%s' % (src, '|'.join(tags)))
-        return R
 
     @staticmethod
     def sig(clause, key, kind, vals, info):
@@ -303,6 +585,33 @@ class C07(Check):
                 extra = ':inf'
         return '%s:%s:type=%s%s' % (key, clause, kind or 'allnull-object',
                                     extra)
+
+
+def _jd(x):
+    """Discovered values as picklable plain Python, types preserved:
+    numpy scalars -> python scalars, anything exotic -> ('repr', text)."""
+    if isinstance(x, dict):
+        return dict((str(k), _jd(v)) for k, v in x.items())
+    if isinstance(x, (list, tuple)):
+        return [_jd(y) for y in x]
+    if x is None or type(x) in (bool, int, float, str):
+        return x
+    if isinstance(x, (datetime.datetime, datetime.date)) \
+            and type(x).__module__ == 'datetime':
+        return x
+    item = getattr(x, 'item', None)
+    if callable(item):
+        try:
+            y = item()
+            if type(y) in (bool, int, float, str):
+                return y
+        except Exception:
+            pass
+    return ('repr', repr(x))
+
+
+def _jl(x):
+    return x
 
 
 def _j(x):
